@@ -35,10 +35,21 @@ def _member_ok(kind, slicer, v, lo, hi, is_last):
 CFG_KEYS = ("width", "n_intervals", "n_points", "right_open", "include_max", "last_full", "value_range", "min_n_points", "min_n_intervals", "reference")
 
 
-def remember_configuration(slicer):
+def remember_configuration(slicer, **given):
     """Called by the drivers right after construction: the configuration the USER gave.  The oracle judges against it
-    (a slicer that rewrites its own configuration during slice_ must not be able to move the goal posts)."""
-    slicer._vmon_cfg = {k: getattr(slicer, k) for k in CFG_KEYS if hasattr(slicer, k)}
+    (a slicer that rewrites its own configuration during slice_ - or in its constructor - must not be able to move the
+    goal posts).  `given`: the keyword arguments the driver passed; an option that was NOT passed has its documented
+    default (min_n_points = 50, min_n_intervals = 3; for the points-per-interval slicer min_n_points is at most n_points)."""
+    cfg = {k: getattr(slicer, k) for k in CFG_KEYS if hasattr(slicer, k)}
+    if given.get("_explicit") is not None:
+        explicit = given["_explicit"]
+        # only options that were NOT passed are replaced by their documented default (with the constructors' documented
+        # clamps: at most n_points points, at most n_intervals intervals); passed options stay as constructed
+        if "min_n_points" not in explicit:
+            cfg["min_n_points"] = min(50, slicer.n_points) if kind_of(slicer) == "PointsPerIntervalSlicer" else 50
+        if "min_n_intervals" not in explicit:
+            cfg["min_n_intervals"] = min(3, slicer.n_intervals) if kind_of(slicer) == "NumberOfIntervalsSlicer" else 3
+    slicer._vmon_cfg = cfg
     return slicer
 
 
